@@ -72,39 +72,25 @@ theorem get_set_cases {α} (l : List α) (i j : Nat) (a x : α) (h : (l.set i a)
     exact Or.inr ⟨hij, h⟩
 
 
-/-- a thread in a nested termination of q ⇒ q is in state inCbN, owned by that thread -/
-def NF (subs : List Sub) (tps : List Tp) : Prop :=
-  ∀ (t q : Nat), subs[t]? = some (Sub.ncb q) → ∃ tp : Tp, tps[q]? = some tp ∧ tp.st = .inCbN ∧ tp.by_ = t
-def NB (subs : List Sub) (tps : List Tp) : Prop :=
-  ∀ (q : Nat) (tp : Tp), tps[q]? = some tp → tp.st = .inCbN → subs[tp.by_]? = some (Sub.ncb q)
+/-- q on the nested-callback stack of thread t ⇒ q is in state inCbN, owned by that thread; and conversely -/
+def NF (nests : List (List Nat)) (tps : List Tp) : Prop :=
+  ∀ (t : Nat) (l : List Nat) (q : Nat), nests[t]? = some l → q ∈ l → ∃ tp : Tp, tps[q]? = some tp ∧ tp.st = .inCbN ∧ tp.by_ = t
+def NB (nests : List (List Nat)) (tps : List Tp) : Prop :=
+  ∀ (q : Nat) (tp : Tp), tps[q]? = some tp → tp.st = .inCbN → ∃ l : List Nat, nests[tp.by_]? = some l ∧ q ∈ l
 
-theorem nf_set {subs : List Sub} {tps : List Tp} {p : Nat} {tp tp' : Tp} (h : NF subs tps) (htp : tps[p]? = some tp)
-    (hne : tp.st ≠ .inCbN) : NF subs (tps.set p tp') := by
-  intro t q hq
-  obtain ⟨x, hx, hxs, hxb⟩ := h t q hq
+theorem nf_set {nests : List (List Nat)} {tps : List Tp} {p : Nat} {tp tp' : Tp} (h : NF nests tps) (htp : tps[p]? = some tp)
+    (hne : tp.st ≠ .inCbN) : NF nests (tps.set p tp') := by
+  intro t l q hl hq
+  obtain ⟨x, hx, hxs, hxb⟩ := h t l q hl hq
   have : p ≠ q := by intro e; subst e; rw [htp] at hx; cases hx; exact hne hxs
   exact ⟨x, by rw [List.getElem?_set_ne this]; exact hx, hxs, hxb⟩
 
-theorem nb_set {subs : List Sub} {tps : List Tp} {p : Nat} {tp' : Tp} (h : NB subs tps) (hne : tp'.st ≠ .inCbN) :
-    NB subs (tps.set p tp') := by
+theorem nb_set {nests : List (List Nat)} {tps : List Tp} {p : Nat} {tp' : Tp} (h : NB nests tps) (hne : tp'.st ≠ .inCbN) :
+    NB nests (tps.set p tp') := by
   intro q x hx hxs
   rcases get_set_cases _ _ _ _ _ hx with ⟨_, hxe, _⟩ | ⟨_, hx'⟩
   · subst hxe; exact absurd hxs hne
   · exact h q x hx' hxs
-
-theorem nf_subs {subs : List Sub} {tps : List Tp} {t : Nat} {u : Sub} (h : NF subs tps) (hu : ∀ q, u ≠ Sub.ncb q) :
-    NF (subs.set t u) tps := by
-  intro t' q hq
-  rcases get_set_cases _ _ _ _ _ hq with ⟨_, hx, _⟩ | ⟨_, hq'⟩
-  · exact absurd hx.symm (hu q)
-  · exact h t' q hq'
-
-theorem nb_subs {subs : List Sub} {tps : List Tp} {t : Nat} {u : Sub} (h : NB subs tps) (hold : ∀ q, subs[t]? ≠ some (Sub.ncb q)) :
-    NB (subs.set t u) tps := by
-  intro q x hx hxs
-  have hb := h q x hx hxs
-  have hne : t ≠ x.by_ := by intro e; rw [← e] at hb; exact hold q hb
-  rw [List.getElem?_set_ne hne]; exact hb
 
 structure Inv (s : St) : Prop where
   len1 : s.subs.length = s.bases.length
@@ -122,8 +108,11 @@ structure Inv (s : St) : Prop where
     ∃ tp : Tp, s.tps[q]? = some tp ∧ (tp.st = .adding ∨ tp.st = .earlyCb ∨ tp.st = .earlyDec) ∧ tp.by_ = t
   addBack : ∀ (q : Nat) (tp : Tp), s.tps[q]? = some tp → (tp.st = .adding ∨ tp.st = .earlyCb ∨ tp.st = .earlyDec) →
     s.subs[tp.by_]? = some (Sub.adding q)
-  nFwd : NF s.subs s.tps
-  nBack : NB s.subs s.tps
+  nFwd : NF s.nests s.tps
+  nBack : NB s.nests s.tps
+  len3 : s.nests.length = s.bases.length
+  nIdle : ∀ (t : Nat) (l : List Nat), s.nests[t]? = some l → l ≠ [] → ∃ m : Nat, s.bases[t]? = some (Base.cb m)
+  nNodup : ∀ (t : Nat) (l : List Nat), s.nests[t]? = some l → l.Nodup
   allOut : s.mm = .atBarrier → (∀ m ∈ s.wm, m = .exited) → s.active = 0
   leaving : s.mm = .leaving → (∀ m ∈ s.wm, m = .parked) ∧ ∀ tp ∈ s.tps, tp.st = .notAdded ∨ tp.st = .done
 
@@ -140,7 +129,7 @@ theorem inv_init (k : Nat) (tps : List Tp) (hf : ∀ tp ∈ tps, tp.fresh) : Inv
   have hst : ∀ (p : Nat) (tp : Tp), tps[p]? = some tp → tp.st = .notAdded := fun p tp h => (hf tp (List.mem_of_getElem? h)).1
   refine { len1 := by simp [init], len2 := by simp [init], cnt := ?_, tokM := by simp [init], notSt := ?_, wIdle := ?_,
            mIdle := by simp [init], taskSt := ?_, taskCnt := ?_, cbFwd := ?_, cbBack := ?_, addFwd := ?_, addBack := ?_,
-           nFwd := ?_, nBack := ?_, allOut := by simp [init], leaving := by simp [init] }
+           nFwd := ?_, nBack := ?_, len3 := by simp [init], nIdle := ?_, nNodup := ?_, allOut := by simp [init], leaving := by simp [init] }
   · simp [init, csum_fresh tps (fun tp h => (hf tp h).1)]
   · intro _; simp [init]
   · intro w m h _
@@ -168,19 +157,31 @@ theorem inv_init (k : Nat) (tps : List Tp) (hf : ∀ tp ∈ tps, tp.fresh) : Inv
   · intro q tp h hs
     rw [hst q tp h] at hs
     rcases hs with hs | hs | hs <;> cases hs
-  · intro t q h
+  · intro t l q h hq
     simp only [init, List.getElem?_replicate] at h
-    split at h <;> cases h
+    split at h
+    · cases h; cases hq
+    · cases h
   · intro q tp h hs
     simp only [init] at h
     rw [hst q tp h] at hs; cases hs
+  · intro t l h hne
+    simp only [init, List.getElem?_replicate] at h
+    split at h
+    · cases h; exact absurd rfl hne
+    · cases h
+  · intro t l h
+    simp only [init, List.getElem?_replicate] at h
+    split at h
+    · cases h; exact List.nodup_nil
+    · cases h
 
 syntax "keep " ident : tactic
 macro_rules
   | `(tactic| keep $h) => `(tactic| first
       | exact ($h).len1 | exact ($h).len2 | exact ($h).cnt | exact ($h).tokM | exact ($h).notSt | exact ($h).wIdle
       | exact ($h).mIdle | exact ($h).taskSt | exact ($h).taskCnt | exact ($h).cbFwd | exact ($h).cbBack
-      | exact ($h).addFwd | exact ($h).addBack | exact ($h).nFwd | exact ($h).nBack | exact ($h).allOut | exact ($h).leaving)
+      | exact ($h).addFwd | exact ($h).addBack | exact ($h).nFwd | exact ($h).nBack | exact ($h).len3 | exact ($h).nIdle | exact ($h).nNodup | exact ($h).allOut | exact ($h).leaving)
 
 theorem idleT_iff (s : St) (t : Nat) : idleT s t = true ↔ s.bases[t]? = some .idle ∧ s.subs[t]? = some .none := by
   simp [idleT]
@@ -195,7 +196,8 @@ theorem inv_startBarrier {s : St} (h : Inv s) (hg : s.mm = .out ∧ s.started = 
   have htok := tok_false_of_not_started h hg.2.1
   refine { len1 := ?len1, len2 := ?len2, cnt := ?cnt, tokM := ?tokM, notSt := ?notSt, wIdle := ?wIdle, mIdle := ?mIdle,
            taskSt := ?taskSt, taskCnt := ?taskCnt, cbFwd := ?cbFwd, cbBack := ?cbBack, addFwd := ?addFwd,
-           addBack := ?addBack, nFwd := ?nFwd, nBack := ?nBack, allOut := ?allOut, leaving := ?leaving }
+           addBack := ?addBack, nFwd := ?nFwd, nBack := ?nBack, len3 := ?len3, nIdle := ?nIdle, nNodup := ?nNodup,
+           allOut := ?allOut, leaving := ?leaving }
   all_goals try (keep h)
   case len2 => simpa [tick] using h.len2
   case tokM => simp [tick, htok, isTpWait]
@@ -229,7 +231,8 @@ theorem inv_startToken {s : St} (h : Inv s) (hg : s.mm = .starting) :
   have hst := started_of_mm h (by rw [hg]; simp)
   refine { len1 := ?len1, len2 := ?len2, cnt := ?cnt, tokM := ?tokM, notSt := ?notSt, wIdle := ?wIdle, mIdle := ?mIdle,
            taskSt := ?taskSt, taskCnt := ?taskCnt, cbFwd := ?cbFwd, cbBack := ?cbBack, addFwd := ?addFwd,
-           addBack := ?addBack, nFwd := ?nFwd, nBack := ?nBack, allOut := ?allOut, leaving := ?leaving }
+           addBack := ?addBack, nFwd := ?nFwd, nBack := ?nBack, len3 := ?len3, nIdle := ?nIdle, nNodup := ?nNodup,
+           allOut := ?allOut, leaving := ?leaving }
   all_goals try (keep h)
   case cnt => have := h.cnt; simp [tick, htok] at *; omega
   case tokM => simp [tick, hst]
@@ -243,7 +246,8 @@ theorem inv_waitBegin {s : St} (h : Inv s) (hg : s.mm = .out ∧ s.started = tru
   have htok : s.token = true := h.tokM.2 ⟨hg.2.1, Or.inl hg.1⟩
   refine { len1 := ?len1, len2 := ?len2, cnt := ?cnt, tokM := ?tokM, notSt := ?notSt, wIdle := ?wIdle, mIdle := ?mIdle,
            taskSt := ?taskSt, taskCnt := ?taskCnt, cbFwd := ?cbFwd, cbBack := ?cbBack, addFwd := ?addFwd,
-           addBack := ?addBack, nFwd := ?nFwd, nBack := ?nBack, allOut := ?allOut, leaving := ?leaving }
+           addBack := ?addBack, nFwd := ?nFwd, nBack := ?nBack, len3 := ?len3, nIdle := ?nIdle, nNodup := ?nNodup,
+           allOut := ?allOut, leaving := ?leaving }
   all_goals try (keep h)
   case cnt => have := h.cnt; simp [tick, htok] at *; omega
   case tokM => simp [tick, isTpWait]
@@ -258,7 +262,8 @@ theorem inv_sawZero {s : St} (h : Inv s) (hg : s.mm = .waiting ∧ idleT s 0 = t
   have hst := started_of_mm h (by rw [hg.1]; simp)
   refine { len1 := ?len1, len2 := ?len2, cnt := ?cnt, tokM := ?tokM, notSt := ?notSt, wIdle := ?wIdle, mIdle := ?mIdle,
            taskSt := ?taskSt, taskCnt := ?taskCnt, cbFwd := ?cbFwd, cbBack := ?cbBack, addFwd := ?addFwd,
-           addBack := ?addBack, nFwd := ?nFwd, nBack := ?nBack, allOut := ?allOut, leaving := ?leaving }
+           addBack := ?addBack, nFwd := ?nFwd, nBack := ?nBack, len3 := ?len3, nIdle := ?nIdle, nNodup := ?nNodup,
+           allOut := ?allOut, leaving := ?leaving }
   all_goals try (keep h)
   case tokM => simp [tick, htok, isTpWait]
   case notSt => intro hs; simp only [tick] at hs; rw [hst] at hs; cases hs
@@ -271,7 +276,8 @@ theorem inv_leave {s : St} {w : Nat} (h : Inv s) (hg : s.wm[w]? = some .looping 
   have hmem : WMode.looping ∈ s.wm := List.mem_of_getElem? hg.1
   refine { len1 := ?len1, len2 := ?len2, cnt := ?cnt, tokM := ?tokM, notSt := ?notSt, wIdle := ?wIdle, mIdle := ?mIdle,
            taskSt := ?taskSt, taskCnt := ?taskCnt, cbFwd := ?cbFwd, cbBack := ?cbBack, addFwd := ?addFwd,
-           addBack := ?addBack, nFwd := ?nFwd, nBack := ?nBack, allOut := ?allOut, leaving := ?leaving }
+           addBack := ?addBack, nFwd := ?nFwd, nBack := ?nBack, len3 := ?len3, nIdle := ?nIdle, nNodup := ?nNodup,
+           allOut := ?allOut, leaving := ?leaving }
   all_goals try (keep h)
   case len2 => simpa [tick] using h.len2
   case notSt =>
@@ -307,7 +313,8 @@ theorem inv_barrier {s : St} (h : Inv s) (hg : s.mm = .atBarrier ∧ (∀ m ∈ 
   have hidle := all_idle_of_out h (Or.inl hg.1) (fun m hm => by rw [hg.2 m hm]; simp)
   refine { len1 := ?len1, len2 := ?len2, cnt := ?cnt, tokM := ?tokM, notSt := ?notSt, wIdle := ?wIdle, mIdle := ?mIdle,
            taskSt := ?taskSt, taskCnt := ?taskCnt, cbFwd := ?cbFwd, cbBack := ?cbBack, addFwd := ?addFwd,
-           addBack := ?addBack, nFwd := ?nFwd, nBack := ?nBack, allOut := ?allOut, leaving := ?leaving }
+           addBack := ?addBack, nFwd := ?nFwd, nBack := ?nBack, len3 := ?len3, nIdle := ?nIdle, nNodup := ?nNodup,
+           allOut := ?allOut, leaving := ?leaving }
   all_goals try (keep h)
   case len2 => simpa [tick] using h.len2
   case tokM => simp [tick, htok, isTpWait]
@@ -355,9 +362,10 @@ theorem inv_barrier {s : St} (h : Inv s) (hg : s.mm = .atBarrier ∧ (∀ m ∈ 
         have hlt : tp.by_ < s.bases.length := by rw [← h.len1]; exact (List.getElem?_eq_some_iff.1 hb).1
         rw [(hidle _ hlt).2] at hb; cases hb
       | inCbN =>
-        have hb := h.nBack q tp hget' hs
-        have hlt : tp.by_ < s.bases.length := by rw [← h.len1]; exact (List.getElem?_eq_some_iff.1 hb).1
-        rw [(hidle _ hlt).2] at hb; cases hb
+        obtain ⟨l, hl, hql⟩ := h.nBack q tp hget' hs
+        have hlt : tp.by_ < s.bases.length := by rw [← h.len3]; exact (List.getElem?_eq_some_iff.1 hl).1
+        obtain ⟨m, hm⟩ := h.nIdle _ l hl (by intro e; rw [e] at hql; cases hql)
+        rw [(hidle _ hlt).1] at hm; cases hm
     have hz := csum_zero_of_nonneg s.tps (fun tp hm => by
       rcases hst3 tp hm with h1 | h1 | h1 <;> simp [h1, contrib]) (by omega)
     intro tp hm
@@ -372,7 +380,8 @@ theorem inv_waitReturn {s : St} (h : Inv s) (hg : s.mm = .leaving) :
   have htok := tok_false_of_mm h (by rw [hg]; simp) (by rw [hg]; rfl)
   refine { len1 := ?len1, len2 := ?len2, cnt := ?cnt, tokM := ?tokM, notSt := ?notSt, wIdle := ?wIdle, mIdle := ?mIdle,
            taskSt := ?taskSt, taskCnt := ?taskCnt, cbFwd := ?cbFwd, cbBack := ?cbBack, addFwd := ?addFwd,
-           addBack := ?addBack, nFwd := ?nFwd, nBack := ?nBack, allOut := ?allOut, leaving := ?leaving }
+           addBack := ?addBack, nFwd := ?nFwd, nBack := ?nBack, len3 := ?len3, nIdle := ?nIdle, nNodup := ?nNodup,
+           allOut := ?allOut, leaving := ?leaving }
   all_goals try (keep h)
   case tokM => simp [tick, htok]
   case notSt => intro _; exact ⟨rfl, (h.leaving hg).1⟩
@@ -385,7 +394,8 @@ theorem inv_tpWaitBegin {s : St} {p : Nat} (h : Inv s) (hg : s.mm = .out ∧ s.s
   have htok : s.token = true := h.tokM.2 ⟨hg.2.1, Or.inl hg.1⟩
   refine { len1 := ?len1, len2 := ?len2, cnt := ?cnt, tokM := ?tokM, notSt := ?notSt, wIdle := ?wIdle, mIdle := ?mIdle,
            taskSt := ?taskSt, taskCnt := ?taskCnt, cbFwd := ?cbFwd, cbBack := ?cbBack, addFwd := ?addFwd,
-           addBack := ?addBack, nFwd := ?nFwd, nBack := ?nBack, allOut := ?allOut, leaving := ?leaving }
+           addBack := ?addBack, nFwd := ?nFwd, nBack := ?nBack, len3 := ?len3, nIdle := ?nIdle, nNodup := ?nNodup,
+           allOut := ?allOut, leaving := ?leaving }
   all_goals try (keep h)
   case tokM => simp [tick, htok, hg.2.1, isTpWait]
   case notSt => intro hs; simp only [tick] at hs; rw [hg.2.1] at hs; cases hs
@@ -399,7 +409,8 @@ theorem inv_tpWaitReturn {s : St} {p : Nat} (h : Inv s) (hg : s.mm = .tpWait p) 
   have htok : s.token = true := h.tokM.2 ⟨hst, Or.inr (by rw [hg]; rfl)⟩
   refine { len1 := ?len1, len2 := ?len2, cnt := ?cnt, tokM := ?tokM, notSt := ?notSt, wIdle := ?wIdle, mIdle := ?mIdle,
            taskSt := ?taskSt, taskCnt := ?taskCnt, cbFwd := ?cbFwd, cbBack := ?cbBack, addFwd := ?addFwd,
-           addBack := ?addBack, nFwd := ?nFwd, nBack := ?nBack, allOut := ?allOut, leaving := ?leaving }
+           addBack := ?addBack, nFwd := ?nFwd, nBack := ?nBack, len3 := ?len3, nIdle := ?nIdle, nNodup := ?nNodup,
+           allOut := ?allOut, leaving := ?leaving }
   all_goals try (keep h)
   case tokM => simp [tick, htok, hst]
   case notSt => intro hs; simp only [tick] at hs; rw [hst] at hs; cases hs
@@ -441,6 +452,20 @@ theorem canExec_mIdle {s : St} {t : Nat} (hc : canExec s t = true)
   unfold canExec at hc
   rcases hm with hm | hm | hm <;> rw [hm] at hc <;> simp [isTpWait] at hc
 
+/-- the "nested stack non-empty ⇒ in a callback" clause when the activity of thread `t` changes -/
+theorem nIdle_set {s : St} (h : Inv s) {t : Nat} {b b' : Base} (hb : s.bases[t]? = some b)
+    (hcase : (∀ m, b ≠ Base.cb m) ∨ s.nests[t]? = some [] ∨ (∃ m, b' = Base.cb m)) :
+    ∀ (t' : Nat) (l : List Nat), s.nests[t']? = some l → l ≠ [] → ∃ m : Nat, (s.bases.set t b')[t']? = some (Base.cb m) := by
+  intro t' l hl hne
+  obtain ⟨m, hm⟩ := h.nIdle t' l hl hne
+  by_cases e : t = t'
+  · subst e
+    rcases hcase with hc | hc | ⟨m', hc⟩
+    · rw [hb] at hm; cases hm; exact absurd rfl (hc m)
+    · rw [hc] at hl; cases hl; exact absurd rfl hne
+    · exact ⟨m', by rw [List.getElem?_set_self (List.getElem?_eq_some_iff.1 hb).1, hc]⟩
+  · exact ⟨m, by rw [List.getElem?_set_ne e]; exact hm⟩
+
 theorem inv_taskBegin {s : St} {t p : Nat} {tp : Tp} (h : Inv s) (htp : s.tps[p]? = some tp)
     (hg : canExec s t = true ∧ idleT s t = true ∧ tp.st = .added ∧ tp.started < tp.total) :
     Inv (tick { s with bases := s.bases.set t (.task p),
@@ -452,7 +477,8 @@ theorem inv_taskBegin {s : St} {t p : Nat} {tp : Tp} (h : Inv s) (htp : s.tps[p]
   obtain ⟨hpl, _⟩ := List.getElem?_eq_some_iff.1 htp
   refine { len1 := ?len1, len2 := ?len2, cnt := ?cnt, tokM := ?tokM, notSt := ?notSt, wIdle := ?wIdle, mIdle := ?mIdle,
            taskSt := ?taskSt, taskCnt := ?taskCnt, cbFwd := ?cbFwd, cbBack := ?cbBack, addFwd := ?addFwd,
-           addBack := ?addBack, nFwd := ?nFwd, nBack := ?nBack, allOut := ?allOut, leaving := ?leaving }
+           addBack := ?addBack, nFwd := ?nFwd, nBack := ?nBack, len3 := ?len3, nIdle := ?nIdle, nNodup := ?nNodup,
+           allOut := ?allOut, leaving := ?leaving }
   all_goals try (keep h)
   case len1 => simpa [tick] using h.len1
   case len2 => simpa [tick] using h.len2
@@ -523,6 +549,8 @@ theorem inv_taskBegin {s : St} {t p : Nat} {tp : Tp} (h : Inv s) (htp : s.tps[p]
     · exact h.addBack q x hx' hxs
   case nFwd => exact nf_set h.nFwd htp (by rw [hst]; simp)
   case nBack => exact nb_set h.nBack (by simp [hst])
+  case len3 => simpa [tick] using h.len3
+  case nIdle => exact nIdle_set h hbt (Or.inl (by intro m e; cases e))
   case leaving => intro hm; exact (canExec_not_out h hc (Or.inl hm)).elim
 
 theorem set_keep {α} {l : List α} {i j : Nat} {a : α} (h : l[j]? = some a) : (l.set i a)[j]? = some a := by
